@@ -1,14 +1,25 @@
 """Run plan of one property for vf.py (which harness, which sanitizer variants, budgets)."""
 from checks_common import three
 
+
+def _runs():
+    # three modes = three processes per variant, so that a sanitizer halt in one part cannot mask the others:
+    #   mix        tasks / futures / Cancellable<Task> (inner task bound explicitly, like the repo's tests)
+    #   futex      probes + solo + hand-off + storm episodes on coroutine::Futex
+    #   mixinherit Cancellable whose inner task inherits its executor through the proxy coroutine (on a tree with
+    #              defect e this process dies with a null executor dereference)
+    runs = []
+    for mode in ("mix", "futex", "mixinherit"):
+        runs += three("c13_coroutine", [], scales=(0.5, 1.0, 2.0), mode=mode)
+    thorough = {"tsan": 0.3, "asan": 0.5, "plain": 1.0}
+    for r in runs:
+        r["scale_quick"] = r.pop("scale")
+        r["scale_thorough"] = thorough[r["variant"]]
+    return runs
+
+
 CHECK = {
-    # two modes = two processes per variant, so that a sanitizer halt in the futex part cannot mask the
-    # task / future / cancellable part (and vice versa)
-    "runs": three("c13_coroutine", [], scales=(0.25, 0.5, 1.0), mode="mix")
-            + three("c13_coroutine", [], scales=(0.25, 0.5, 1.0), mode="futex")
-            # Cancellable whose inner task inherits its executor through the proxy coroutine (own process: on a
-            # tree with defect e this dies with a null executor dereference)
-            + three("c13_coroutine", [], scales=(0.25, 0.5, 1.0), mode="mixinherit"),
+    "runs": _runs(),
     "parallel": 3,
     "design_ref": "DESIGN.md §5 C13, §6",
     "technique": "coroutine workloads on thread-pool executors with online monitors (in-frame flag, suspend/resume "
